@@ -177,3 +177,13 @@ pub enum CbLookEnd {
     #[regex("[0-9]+", decide_bool)] Num,
     #[token(" ")] Sp,
 }
+
+// named arguments after ignore(case): the callback still belongs to the pattern
+#[derive(Logos, Debug, PartialEq, Clone)]
+#[logos(error = LexErr)]
+pub enum CbAfterIgnore {
+    #[token("begin", ignore(case), callback = decide_bool)] Begin,
+    #[regex("[0-9]+x", ignore(case), callback = decide_bool)] Hex,
+    #[regex("[a-z]+", decide_value)] Word(u32),
+    #[token(" ")] Sp,
+}
